@@ -620,7 +620,8 @@ func slotPrecedence(e Expression) int     { return 0 }
 //@   use cwFrame writeTo
 //@   assumes [wf] !isNil(ce.Function) && forall(0, len(ce.Arguments), func(k int) bool { return !isNil(ce.Arguments[k]) })
 //@   loop 1 invariant [frame] cwInv(cw) && J(cw) && NoFusion(cw) && implies(cw.PrettyPrint, cw.IndentLevel == old(cw.IndentLevel)+1) && implies(!cw.PrettyPrint, cw.IndentLevel == old(cw.IndentLevel))
-//@   loop 1 before [syntax] traceSeq(evNode(ce.Function), evLC(ce.Token.LeadingComments), evMap(ce.Token.Start), evRune('('))
+//@   loop 1 before [parens.subject@C03] ncalls("slotPrecedence") == 1 && callArg[Expression]("slotPrecedence", 0, 0) == ce.Function
+//@   loop 1 before [syntax] traceSeq(evOpt(parensLeft(PrecedenceCall, callResult[int]("slotPrecedence", 0)), evRune('(')), evNode(ce.Function), evOpt(parensLeft(PrecedenceCall, callResult[int]("slotPrecedence", 0)), evRune(')')), evLC(ce.Token.LeadingComments), evMap(ce.Token.Start), evRune('('))
 //@   loop 1 each [syntax] traceSeq(evOpt(iter() > 0, evRune(',')), evNode(ce.Arguments[iter()]))
 //@   ensures [syntax] traceSeq(evRune(')'))
 
@@ -628,19 +629,22 @@ func slotPrecedence(e Expression) int     { return 0 }
 //@   props C01 C03 C06 C08 C15 C14 C11
 //@   use cwFrame writeTo
 //@   assumes [wf] !isNil(me.Object) && !isNil(me.Property)
-//@   ensures [syntax] traceSeq(evNode(me.Object), evLC(me.Token.LeadingComments), evMap(me.Token.Start), evOpt(me.Computed, evRune('[')), evOpt(!me.Computed, evRune('.')), evNode(me.Property), evOpt(me.Computed, evRune(']')))
+//@   ensures [parens.subject@C03] ncalls("slotPrecedence") == 1 && callArg[Expression]("slotPrecedence", 0, 0) == me.Object
+//@   ensures [syntax] traceSeq(evOpt(parensLeft(PrecedenceCall, callResult[int]("slotPrecedence", 0)), evRune('(')), evNode(me.Object), evOpt(parensLeft(PrecedenceCall, callResult[int]("slotPrecedence", 0)), evRune(')')), evLC(me.Token.LeadingComments), evMap(me.Token.Start), evOpt(me.Computed, evRune('[')), evOpt(!me.Computed, evRune('.')), evNode(me.Property), evOpt(me.Computed, evRune(']')))
 
 //@ func (ae *AssignmentExpression) WriteTo(cw)
 //@   props C01 C03 C06 C08 C15 C14 C11
 //@   use cwFrame writeTo
 //@   assumes [wf] !isNil(ae.Left) && !isNil(ae.Value)
-//@   ensures [syntax] traceSeq(evNode(ae.Left), evLC(ae.Token.LeadingComments), evMap(ae.Token.Start), evRune('='), evNode(ae.Value))
+//@   ensures [parens.subject@C03] ncalls("slotPrecedence") == 1 && callArg[Expression]("slotPrecedence", 0, 0) == ae.Left
+//@   ensures [syntax] traceSeq(evOpt(parensLeft(PrecedenceCall, callResult[int]("slotPrecedence", 0)), evRune('(')), evNode(ae.Left), evOpt(parensLeft(PrecedenceCall, callResult[int]("slotPrecedence", 0)), evRune(')')), evLC(ae.Token.LeadingComments), evMap(ae.Token.Start), evRune('='), evNode(ae.Value))
 
 //@ func (cae *CompoundAssignmentExpression) WriteTo(cw)
 //@   props C01 C03 C06 C08 C15 C14 C11
 //@   use cwFrame writeTo
 //@   assumes [wf] !isNil(cae.Left) && !isNil(cae.Value)
-//@   ensures [syntax] traceSeq(evNode(cae.Left), evLC(cae.Token.LeadingComments), evMap(cae.Token.Start), evStr(cae.Operator), evRune('='), evNode(cae.Value))
+//@   ensures [parens.subject@C03] ncalls("slotPrecedence") == 1 && callArg[Expression]("slotPrecedence", 0, 0) == cae.Left
+//@   ensures [syntax] traceSeq(evOpt(parensLeft(PrecedenceCall, callResult[int]("slotPrecedence", 0)), evRune('(')), evNode(cae.Left), evOpt(parensLeft(PrecedenceCall, callResult[int]("slotPrecedence", 0)), evRune(')')), evLC(cae.Token.LeadingComments), evMap(cae.Token.Start), evStr(cae.Operator), evRune('='), evNode(cae.Value))
 
 //@ func (fe *FunctionExpression) WriteTo(cw)
 //@   props C01 C03 C06 C08 C15 C14 C11
